@@ -492,7 +492,7 @@ add(Contract("yarl._query:query_var", [("v", UNION(STR, _QV))], spec=spec_query.
              raises=(TypeError, ValueError), props=("C12", "C19"),
              note="type gate over the finite type lattice (every representative enumerated) and all strings"))
 
-_QARG = UNION(OPT(STR), CONST(b"x", 5, bytearray(b"y")), "pairs")
+_QARG = UNION(OPT(STR), CONST(b"x", 5, bytearray(b"y")), "pairs", "querydict")
 add(Contract("yarl._query:get_str_query_from_iterable", [("items", "pairs")], spec=spec_query.str_query_from_pairs,
              raises=(TypeError, ValueError), props=("C12", "C19"),
              note="pairs in order as key=value joined by '&', each side quoted as a query part (lists of 0, 1, 2 pairs, str / int values)"))
